@@ -10,6 +10,7 @@ INVARIANT NoResendAfterAnswer
 INVARIANT Retries
 INVARIANT OnlyTagError
 INVARIANT AtMostOncePerAnswer
+INVARIANT TargetFollowsSense
 INVARIANT NoViol
 INVARIANT Absorbed
 INVARIANT GaveUpOutcome
